@@ -175,8 +175,14 @@ def native_explore(logic, depth2_sample, seed=0):
     l1 = [(op, a) for op in UN for a in leaves] + [(op, a, b) for op in BI for a in leaves for b in leaves]
     pool = leaves + l1
     l2 = [(op, a) for op in UN for a in l1] + [(op, a, b) for op in BI for a in rng_.sample(l1, min(len(l1), depth2_sample)) for b in rng_.sample(pool, min(len(pool), depth2_sample))]
+    # depth 3 and 4: every unary chain over every depth-1 tree, and binary operators with one depth-2 operand (seeded sample)
+    l2u = [(op, a) for op in UN for a in l1]
+    l3 = [(op, a) for op in UN for a in l2u] + [(op, a, b) for op in BI for a in rng_.sample(l2u, 40) for b in leaves[2:]] + \
+         [(op, b, a) for op in BI for a in rng_.sample(l2u, 40) for b in leaves[2:]]
+    l4 = [(op, a) for op in UN for a in rng_.sample(l3, 400)]
+    deep = set(map(id, l3)) | set(map(id, l4))
     stats = dict(trees=0, built=0, rejected=0, casts=0, problems=[])
-    for t in leaves + l1 + l2:
+    for t in leaves + l1 + l2 + l3 + l4:
         stats['trees'] += 1
         want = doc_member(logic, plain(t))
         try:
@@ -198,7 +204,7 @@ def native_explore(logic, depth2_sample, seed=0):
         stats['built'] += 1
         if shape(f) != t or any(type(x).__module__ != 'pyModelChecking.%s.language' % logic for x in _nodes(f)):
             stats['problems'].append(('built object has another shape/module', t))
-        if stats['built'] % 7 == 0 or len(t) == 2:
+        if stats['built'] % 7 == 0 or len(t) == 2 or id(t) in deep:
             for tgt in ('PL', 'CTL', 'LTL', 'CTLS'):
                 T = importlib.import_module('pyModelChecking.' + tgt)
                 wantc = doc_member(tgt, plain(t))
